@@ -30,6 +30,10 @@ var StructImpls = []string{"reflect-struct", "node-struct", "reflect-structmap",
 // Only nodeutil.Reflect serves such lists (nodeutil.Node states "need pointer to struct").
 var StructValImpls = []string{"reflect-structval"}
 
+// StructEmbedImpls declare all members but the first of every struct in an embedded struct (Go
+// promotes them: reflect reaches them by a two-step index). Served by both reflection nodes.
+var StructEmbedImpls = []string{"node-structembed", "reflect-structembed"}
+
 func IsStructImpl(impl string) bool { return strings.Contains(impl, "-struct") }
 
 type structStore struct {
@@ -45,7 +49,7 @@ func NewFor(impl string, m *meta.Module) Store {
 		return New(impl)
 	}
 	maps := strings.HasSuffix(impl, "structmap")
-	t := structTypeFor(m.DataDefinitions(), layout{maps: maps, vals: strings.HasSuffix(impl, "structval")}, "Root")
+	t := structTypeFor(m.DataDefinitions(), layout{maps: maps, vals: strings.HasSuffix(impl, "structval"), embed: strings.HasSuffix(impl, "structembed")}, "Root")
 	root := reflect.New(t)
 	s := &structStore{name: impl, root: root, maps: maps}
 	if strings.HasPrefix(impl, "reflect-") {
@@ -65,7 +69,7 @@ func (s *structStore) Snapshot(m *meta.Module) *model.Tree {
 
 // layout of lists in a generated struct type: map keyed by the first key leaf, slice of struct
 // values, or (default) slice of pointers
-type layout struct{ maps, vals bool }
+type layout struct{ maps, vals, embed bool }
 
 func goScalarType(t *meta.Type) reflect.Type {
 	switch t.Format().Single() {
@@ -130,6 +134,10 @@ func structTypeFor(defs []meta.Definition, lay layout, name string) reflect.Type
 			continue
 		}
 		fields = append(fields, f)
+	}
+	if lay.embed && len(fields) >= 2 {
+		part := reflect.StructOf(fields[1:])
+		fields = []reflect.StructField{fields[0], {Name: "Part", Type: part, Anonymous: true}}
 	}
 	return reflect.StructOf(fields)
 }
